@@ -143,7 +143,11 @@ def _exc(acc, K, where, e, case, first):
         traceback.print_exception(type(e), e, e.__traceback__)
     if exc_where(e) == '?':
         raise e
-    acc.viol(K(exc_key(where, e)), '%s: %s' % (type(e).__name__, str(e)[:300]), case, new_case=first)
+    try:
+        key = K(exc_key(where, e), str(e))      # classifiers that also look at the message
+    except TypeError:
+        key = K(exc_key(where, e))
+    acc.viol(key, '%s: %s' % (type(e).__name__, str(e)[:300]), case, new_case=first)
 
 
 def _dense(v):
@@ -230,9 +234,30 @@ def _wrt_opts(c):
     return res
 
 
-def _judge_comp(kit, c, comp, st, events, frozen_x, out, colored=False):
+def _effective_opts(comp, k):
+    """white box: the options OpenMDAO really registered for wrt variable k of this component."""
+    abs_wrt = comp.pathname + '.' + k
+    for m_, sch in comp._approx_schemes.items():
+        meta = sch._wrt_meta.get(abs_wrt)
+        if meta is not None:
+            return {'method': m_, 'form': meta.get('form'), 'step': meta.get('step'),
+                    'step_calc': meta.get('step_calc'), 'minimum_step': meta.get('minimum_step')}
+    return None
+
+
+def _norm_opts(kit, o):
+    if o['method'] == 'cs':
+        return ('cs', o.get('step') or kit.CS_DEFAULT_STEP)
+    ms = o.get('minimum_step')
+    return ('fd', kit.eff_form(o), o.get('step') or kit.FD_DEFAULT_STEP, o.get('step_calc') or 'abs',
+            kit.DEFAULT_MIN_STEP if ms is None else ms)
+
+
+def _judge_comp(kit, c, comp, st, events, frozen_x, out, colored=False, jac_src=None, tag=''):
     """Judge all approximated blocks of one component.  st = (x, y, r) before the approximation.
-    out: list collecting (keypart, observable, message)."""
+    out: list collecting (keypart, observable, message).  A diagnosed mechanism is only named when it is
+    confirmed by observation: the perturbations the component really received (hook) or, for mixed declarations,
+    the options OpenMDAO registered for the wrt variable."""
     x, y, rcur = st
     imp = c['kind'] == 'imp'
     cfg = c['c12']
@@ -257,6 +282,59 @@ def _judge_comp(kit, c, comp, st, events, frozen_x, out, colored=False):
                 for v in vals:
                     cand += list(kit.doc_step(o, v))
         cand = sorted(set(float(h) for h in cand))
+    # ---- observed perturbations ----------------------------------------------------------------------------
+    nobs = 0
+    base = dict(x)
+    base.update(y)
+    merged = []
+    pend = None
+    for evn, name, payload in events:
+        if name != c['name']:
+            continue
+        if evn == 'apply_out':
+            pend = payload
+        elif evn == 'apply_nonlinear':
+            d = dict(payload)
+            d.update(pend or {})
+            pend = None
+            merged.append(d)
+        else:
+            merged.append(payload)
+    obs_h = {}        # var -> observed |step| per entry (nan: not observed)
+    confirmed = {}    # var -> mechanisms confirmed by the observed perturbations
+    for d in merged:
+        for var, arr in d.items():
+            if var not in base:
+                continue
+            diff = np.asarray(arr).ravel() - base[var]
+            for j in np.nonzero(diff)[0]:
+                opts = wopts.get(var)
+                if opts is None:
+                    continue
+                obs_h.setdefault(var, np.full(base[var].size, np.nan))[j] = abs(diff[j])
+                h = kit.doc_step(opts, base[var])[j]
+                exp = kit.expected_deltas(opts, h)
+                tol = 2.0 * kit.EPS * (abs(base[var][j]) + h)
+                nobs += 1
+                if not any(abs(diff[j] - e) <= tol for e in exp):
+                    why = ''
+                    if colored and any(abs(diff[j] - e) <= 2.0 * kit.EPS * (abs(base[var][j]) + hc)
+                                       for hc in cand for e in kit.expected_deltas(opts, hc)):
+                        why = 'colored-rel-step-from-single-wrt'
+                    if not why and frozen_x is not None and (opts.get('step_calc') or 'abs') != 'abs':
+                        xf = frozen_x[1][var] if var in y else frozen_x[0][var]
+                        hf = kit.doc_step(opts, xf)[j]
+                        if any(abs(diff[j] - e) <= 2.0 * kit.EPS * (abs(base[var][j]) + hf)
+                               for e in kit.expected_deltas(opts, hf)):
+                            why = 'rel-step-frozen-at-first-linearization'
+                    if why:
+                        confirmed.setdefault(var, set()).add(why)
+                    if not tag:
+                        out.append((why or kit.cell_of(opts), 'step-size',
+                                    '%s[%d] perturbed by %r, documented %r (x=%r, vector %s) opts %s' %
+                                    (var, j, complex(diff[j]) if np.iscomplexobj(diff) else float(diff[j]), exp,
+                                     float(base[var][j]), np.round(base[var], 6).tolist(), opts)))
+    # ---- values ---------------------------------------------------------------------------------------------
     blocks = [(key.split('|')[0], key.split('|')[1], o) for key, o in cfg.get('blocks', {}).items()]
     blocks += [(o_, o_, o) for o_, o in cfg.get('self', {}).items()]
     for o_, k, opts in blocks:
@@ -270,7 +348,7 @@ def _judge_comp(kit, c, comp, st, events, frozen_x, out, colored=False):
             if imp:
                 D = -D
         try:
-            J = _dense(comp._jacobian[o_, k])
+            J = _dense(jac_src[o_, k] if jac_src is not None else comp._jacobian[o_, k])
         except Exception as e:   # noqa
             out.append((kit.cell_of(opts), 'jacobian-read:' + type(e).__name__, str(e)[:200]))
             continue
@@ -293,28 +371,33 @@ def _judge_comp(kit, c, comp, st, events, frozen_x, out, colored=False):
         err = np.abs(J - D)
         if not np.all(np.isfinite(J)) or np.any(err > bound):
             i, j = np.unravel_index(np.argmax(np.where(np.isfinite(err), err / bound, np.inf)), err.shape)
-            obs = 'value'
             why = ''
             if colored and form == 'cs' and opts.get('step') and J[i, j] == 0.0:
                 why = 'colored-cs-sparsity-by-fd-with-cs-step'
-            if colored and form != 'cs':
-                for hc in cand:
-                    bc, _, _ = kit.fd_bound(form, np.full(xk.size, hc), M, D, xk, E[o_], 0.0)
-                    if np.all(err <= bc):
-                        why = 'colored-rel-step-from-single-wrt'
-                        break
-            if form != 'cs' and not why:
-                if frozen_x is not None and (opts.get('step_calc') or 'abs') != 'abs':
-                    xf = frozen_x[1][o_] if is_self else frozen_x[0][k]
-                    hf = kit.doc_step(opts, xf)
-                    bf, _, _ = kit.fd_bound(form, hf, M, D, xk, E[o_], stale[o_])
-                    if np.all(err <= bf):
-                        why = 'rel-step-frozen-at-first-linearization'
-            out.append((('mixed-wrt-options:' if mixed else '') + (why or cell), obs,
+            if not why and form != 'cs' and confirmed.get(k) and k in obs_h:
+                # explained by the steps that were REALLY applied to this variable (observed by the hook)?
+                ho = np.where(np.isnan(obs_h[k]), h, obs_h[k])
+                bo, _, _ = kit.fd_bound(form, ho, M, D, xk, E[o_], stale[o_])
+                if np.all(err <= bo):
+                    why = sorted(confirmed[k])[0]
+            if not why and mixed:
+                eff = _effective_opts(comp, k)
+                if eff is not None and _norm_opts(kit, eff) != _norm_opts(kit, opts):
+                    # OpenMDAO registered other options for this wrt than this block declared: explained by them?
+                    fe = kit.eff_form(eff)
+                    if fe == 'cs':
+                        be = np.full(D.shape, kit.cs_bound(D))
+                    else:
+                        be, _, _ = kit.fd_bound(fe, kit.doc_step(eff, xk), M, D, xk, E[o_], stale[o_])
+                    if np.all(err <= be):
+                        why = 'mixed-wrt-options:' + cell
+            out.append((why or cell, 'value' + tag,
                         'd %s/d %s [%d,%d]: approx %.12g exact %.12g |err| %.3e > bound %.3e (trunc %.2e, roundoff '
                         '%.2e, documented h %.3e, x %.6g) opts %s' %
                         (o_, k, i, j, J[i, j], D[i, j], err[i, j], bound[i, j], T[i, j], R[i, j], h[j], xk[j],
                          opts)))
+    if jac_src is not None:
+        return ncells, nobs, len(merged)
     # blocks that stay analytic must hold the exact value although approximated columns were written over them
     for key, stl in c['styles'].items():
         if key in cfg.get('blocks', {}) or stl in ('matfree',):
@@ -332,52 +415,6 @@ def _judge_comp(kit, c, comp, st, events, frozen_x, out, colored=False):
                 continue
             out.append(('analytic-block-sharing-wrt', 'value', 'analytic block %s differs from exact by %.3e' %
                         (key, np.abs(J - D).max())))
-    # ---- observed perturbations ----------------------------------------------------------------------------
-    nobs = 0
-    base = dict(x)
-    base.update(y)
-    merged = []
-    pend = None
-    for evn, name, payload in events:
-        if name != c['name']:
-            continue
-        if evn == 'apply_out':
-            pend = payload
-        elif evn == 'apply_nonlinear':
-            d = dict(payload)
-            d.update(pend or {})
-            pend = None
-            merged.append(d)
-        else:
-            merged.append(payload)
-    for d in merged:
-        for var, arr in d.items():
-            if var not in base:
-                continue
-            diff = np.asarray(arr).ravel() - base[var]
-            for j in np.nonzero(diff)[0]:
-                opts = wopts.get(var)
-                if opts is None:
-                    continue
-                h = kit.doc_step(opts, base[var])[j]
-                exp = kit.expected_deltas(opts, h)
-                tol = 2.0 * kit.EPS * (abs(base[var][j]) + h)
-                nobs += 1
-                if not any(abs(diff[j] - e) <= tol for e in exp):
-                    why = ''
-                    if colored and any(abs(diff[j] - e) <= 2.0 * kit.EPS * (abs(base[var][j]) + hc)
-                                       for hc in cand for e in kit.expected_deltas(opts, hc)):
-                        why = 'colored-rel-step-from-single-wrt'
-                    if not why and frozen_x is not None and (opts.get('step_calc') or 'abs') != 'abs':
-                        xf = frozen_x[1][var] if var in y else frozen_x[0][var]
-                        hf = kit.doc_step(opts, xf)[j]
-                        if any(abs(diff[j] - e) <= 2.0 * kit.EPS * (abs(base[var][j]) + hf)
-                               for e in kit.expected_deltas(opts, hf)):
-                            why = 'rel-step-frozen-at-first-linearization'
-                    out.append((why or kit.cell_of(opts), 'step-size',
-                                '%s[%d] perturbed by %r, documented %r (x=%r, vector %s) opts %s' %
-                                (var, j, complex(diff[j]) if np.iscomplexobj(diff) else float(diff[j]), exp,
-                                 float(base[var][j]), np.round(base[var], 6).tolist(), opts)))
     return ncells, nobs, len(merged)
 
 
@@ -831,14 +868,24 @@ def _run_colored(case, acc):
                                        'run_linearize%d' % rnd, case, first)
                 if rnd == 1:
                     acc.count('obs:restore-around-dynamic-coloring')
-                    # judged values only; perturbations of the sparsity sweep are not step observations
-                    events = []
+                    # the perturbations of round 1 include the sparsity sweep: its jacobian is kept and judged
+                    # together with the step observations of round 2 (same point, same options)
+                    jac1 = {}
+                    for c in comps:
+                        keys = [tuple(k_.split('|')) for k_ in c['c12']['blocks']] + \
+                               [(o_, o_) for o_ in c['c12']['self']]
+                        jac1[c['name']] = {k_: _dense(sysm[c['name']]._jacobian[k_]) for k_ in keys}
+                    continue
                 for c in comps:
                     o2 = []
                     nc, nobs, nev = _judge_comp(kit, c, sysm[c['name']], states[c['name']], events,
                                                 rec.first_lin.get(c['name']), o2, colored=True)
-                    mech[c['name']] |= set(kp for kp, _, _ in o2 if kp.startswith(MECHANISMS))
-                    out += [(kp, ob + ('(first-linearize)' if rnd == 1 else ''), m) for kp, ob, m in o2]
+                    _judge_comp(kit, c, sysm[c['name']], states[c['name']], events,
+                                rec.first_lin.get(c['name']), o2, colored=True, jac_src=jac1[c['name']],
+                                tag='(first-linearize)')
+                    # (only mechanisms confirmed by the observed perturbations are named)
+                    mech[c['name']] |= set(kp for kp, ob, _ in o2 if kp.startswith(MECHANISMS) and ob == 'step-size')
+                    out += o2
                     if rnd == 2:
                         cells += nc
                         info = sysm[c['name']]._coloring_info
@@ -913,6 +960,20 @@ def _run_colored(case, acc):
                nontrivial=any(nl for _, nl, _ in cells),
                sample={'seed': case['seed'], 'scenario': 'colored',
                        'coloring': {c['name']: c['c12']['coloring'] for c in comps}})
+
+
+def _cached_group_step(grp, method, abs_wrt):
+    """white box: |step| per entry that the group's approximation scheme has cached for a wrt variable."""
+    sch = grp._approx_schemes.get(method)
+    for tup in (getattr(sch, '_approx_groups', None) or []):
+        if tup[0] == abs_wrt or tup[0] == (abs_wrt,):
+            try:
+                deltas = np.asarray(tup[1][0], dtype=float)
+            except Exception:
+                return None
+            d0 = np.abs(deltas[0]) if deltas.ndim else np.abs(deltas)
+            return np.atleast_1d(d0)
+    return None
 
 
 def _sub_spec(spec, members, actual_inputs):
@@ -996,11 +1057,17 @@ def _run_group(case, acc):
     own_grad = node.get('nl', {}).get('type') in ('newton', 'broyden')
     has_mf = any(c.get('matfree') and c['name'] in members for c in spec['comps'])
 
-    def K(what):
-        if has_imp and not total and 'raises:RuntimeError@direct.py' in what:
-            # the (state, state) block of the approximated group is not the explicit -1 diagonal
+    imp_outs = [o['name'] for c in spec['comps'] if c['kind'] == 'imp' and c['name'] in members
+                for o in c['outputs']]
+    mf_outs = [o['name'] for c in spec['comps'] if c.get('matfree') and c['name'] in members for o in c['outputs']]
+
+    def K(what, msg=None):
+        names = lambda outs: msg is None or any((o + "'") in msg for o in outs)   # noqa: E731
+        if has_imp and not total and 'raises:RuntimeError@direct.py' in what and names(imp_outs):
+            # the (state, state) block of the approximated group is not the explicit -1 diagonal; the solver
+            # names a state of an implicit component of the group as the singular one
             return 'approx-group-with-implicit-comp:%s:%s' % (scen0, what)
-        if has_mf and not total and 'raises:RuntimeError@direct.py' in what:
+        if has_mf and not total and 'raises:RuntimeError@direct.py' in what and names(mf_outs):
             # no (state, state) block at all for a component without declared partials
             return 'approx-group-with-matrix-free-comp:%s:%s' % (scen0, what)
         if own_grad and not total and 'raises:' in what and '@direct.py' in what:
@@ -1137,13 +1204,19 @@ def _run_group(case, acc):
                             if cc['kind'] == 'imp':
                                 Dp = -Dp
                             badm = ~(err <= bound)
-                            if np.all(np.abs(J - Dp)[badm] <= 1e-9):
+                            csys = prob.model._get_subsystem(spec['path'][cc['name']])
+                            shared = key in csys._subjacs_info and grp._subjacs_info.get(key) is csys._subjacs_info[key]
+                            # (white box: the very same metadata dict, hence the same value array, is in use)
+                            if shared and np.all(np.abs(J - Dp)[badm] <= 1e-9):
                                 why = 'approx-group-block-reuses-component-subjac'
                         if not why and frozen is not None and form != 'cs' and (opts.get('step_calc') or 'abs') != 'abs' \
                                 and w in frozen:
                             hf = kit.doc_step(opts, frozen[w])
                             bf, _, _ = _total_bound(kit, form, hf, D, M2[a:b, wa:wb], M3[a:b, wa:wb], eu_rows, pcol)
-                            if np.all(err <= bf):
+                            # white box: the step data cached by the scheme is the one of the first point
+                            hact = None if total else _cached_group_step(grp, opts['method'], G.abs_name(spec, w))
+                            if hact is not None and np.allclose(hact, hf, rtol=1e-9, atol=0.0) and \
+                                    not np.allclose(hact, h, rtol=1e-9, atol=0.0) and np.all(err <= bf):
                                 why = 'rel-step-frozen-at-first-linearization'
                         out.append((why or cell + ('+iterative' if iterative else ''), 'value',
                                     'd %s/d %s [%d,%d]: approx %.12g exact %.12g |err| %.3e > bound %.3e (trunc %.2e '
@@ -1197,7 +1270,9 @@ def _run_group(case, acc):
                                 pass
                             elif Jm.shape != Jr.shape or not np.all(np.isfinite(Jm)) or em.max(initial=0.0) > tolF:
                                 kp = cell
-                                if asm_ancestor:
+                                if asm_ancestor and not any(ob == 'value' for _, ob, _ in out):
+                                    # (the group's own blocks are right, an ancestor with an assembled jacobian
+                                    #  does not see them)
                                     kp = 'approx-group-under-assembled-jacobian'
                                 elif any(k_.startswith(MECHANISMS) for k_, _, _ in out):
                                     kp = [k_ for k_, _, _ in out if k_.startswith(MECHANISMS)][0]
